@@ -118,10 +118,11 @@ structure Range where
   len : Nat
 deriving Repr, DecidableEq, Inhabited
 
-/-- `DataReaderBlob::read_range` / `Blob::read_range`: `offset + length` is an unchecked `u64`
-    addition (panic on overflow in the dev profile), a range outside the data is an error -/
+/-- `DataReaderBlob::read_range` / `Blob::read_range` / `DataReaderFile::read_range`: `offset + length`
+    is a checked addition (since /repo 7ce9b171: overflow → error, before that a dev-profile panic);
+    a range outside the data is an error -/
 def readRange (file : Bytes) (r : Range) : Outcome Bytes :=
-  if r.off + r.len ≥ U64 then .panic
+  if r.off + r.len ≥ U64 then .err
   else if r.off + r.len > file.length then .err
   else .ok ((file.drop r.off).take r.len)
 
